@@ -110,14 +110,18 @@ fn parse_header(header: &str) -> Result<Header, ParseError> {
 
 /// Parses the addresses and ports from a PROXY protocol header for IPv4 and IPv6.
 fn parse_addresses<'a, T: FromStr<Err = AddrParseError>, I: Iterator<Item = &'a str>>(
-    iterator: &mut I,
+    iterator: &mut std::iter::Peekable<I>,
 ) -> Result<(T, T, u16, u16), ParseError> {
     let source_address = iterator.next().ok_or(ParseError::MissingSourceAddress)?;
     let destination_address = iterator
         .next()
         .ok_or(ParseError::MissingDestinationAddress)?;
     let source_port = iterator.next().ok_or(ParseError::MissingSourcePort)?;
-    let destination_port = iterator.next().ok_or(ParseError::MissingDestinationPort)?;
+    // An empty last field with nothing after it has not been received yet.
+    let destination_port = iterator
+        .next()
+        .filter(|port| !port.is_empty() || iterator.peek().is_some())
+        .ok_or(ParseError::MissingDestinationPort)?;
 
     let source_address = source_address
         .parse::<T>()
